@@ -7,7 +7,6 @@ import (
 	"os"
 	"path"
 	"sort"
-	"strings"
 	"syscall"
 )
 
@@ -404,10 +403,12 @@ func Remove(p string) error {
 		logOp("remove", abs, res(e), 0, false, false)
 		return perr("remove", p, e)
 	}
+	gone := par.Children[name]
 	delete(par.Children, name)
 	par.Mtime = now()
 	logOp("remove", abs, "ok", 0, true, false)
 	notify(abs, EvRemove)
+	detached(gone, par, EvRemove)
 	return nil
 }
 
@@ -423,11 +424,12 @@ func RemoveAll(p string) error {
 		logOp("removeall", abs, "ok", 0, false, false)
 		return nil
 	}
-	if _, ok := par.Children[name]; ok {
+	if gone, ok := par.Children[name]; ok {
 		delete(par.Children, name)
 		par.Mtime = now()
 		logOp("removeall", abs, "ok", 0, true, false)
 		notify(abs, EvRemove)
+		detached(gone, par, EvRemove)
 		return nil
 	}
 	logOp("removeall", abs, "ok", 0, false, false)
@@ -465,12 +467,17 @@ func RenameRaw(oa, na string) syscall.Errno {
 	if ex, ok := np.Children[nn]; ok && ex.Kind == KDir && len(ex.Children) > 0 {
 		return syscall.ENOTEMPTY
 	}
+	replaced := np.Children[nn]
 	delete(op.Children, on)
 	np.Children[nn] = n
 	op.Mtime = now()
 	np.Mtime = now()
 	notify(oa, EvRename)
 	notify(na, EvCreate)
+	detached(n, op, EvRename)
+	if replaced != nil && replaced != n {
+		detached(replaced, np, EvRemove)
+	}
 	return 0
 }
 
@@ -560,10 +567,7 @@ func walk(p string, info fs.FileInfo, fn func(p string, info fs.FileInfo, err er
 		return err1
 	}
 	for _, ent := range entries {
-		name := p + "/" + ent.Name()
-		if strings.HasSuffix(p, "/") {
-			name = p + ent.Name()
-		}
+		name := path.Join(p, ent.Name()) // as filepath.Walk does: Walk(".") reports "sub", not "./sub"
 		fi, err := Lstat(name)
 		if err != nil {
 			if err := fn(name, fi, err); err != nil && err != fs.SkipDir {
@@ -594,13 +598,30 @@ const (
 	EvChmod
 )
 
+// A watch follows inotify/fsnotify semantics: it is attached to the directory itself (the inode), is
+// known under the cleaned name it was first added with (a later Add of the same directory under another
+// name changes nothing and is not listed), and disappears by itself when the directory is deleted or renamed.
+type Watch struct {
+	Node *Node
+	Name string
+}
+
 type WatcherState struct {
-	ID     int
-	Dirs   []string
-	Closed bool
-	Send   func(name string, op int) bool // non-blocking send on the watcher's Events channel
+	ID      int
+	Watches []Watch
+	Closed  bool
+	Send    func(name string, op int) bool // non-blocking send on the watcher's Events channel
 	SendErr func(err error) bool
 	CloseCh func()
+}
+
+// Names: what WatchList reports.
+func (w *WatcherState) Names() []string {
+	out := make([]string, 0, len(w.Watches))
+	for _, x := range w.Watches {
+		out = append(out, x.Name)
+	}
+	return out
 }
 
 type PendingEvent struct {
@@ -610,19 +631,65 @@ type PendingEvent struct {
 	Op   int
 }
 
+func queueEvent(w *WatcherState, name string, op int) {
+	evSeq++
+	PendingEvs = append(PendingEvs, &PendingEvent{Seq: evSeq, W: w, Name: name, Op: op})
+	Probe("fsevent_queued")
+}
+
+// notify: the entry abs of its parent directory was created / written / removed / renamed.
 func notify(abs string, op int) {
-	dir := path.Dir(abs)
+	par, name, e := TheFS.parentOf(abs)
+	if e != 0 {
+		return
+	}
 	for _, w := range Watchers {
 		if w.Closed {
 			continue
 		}
-		for _, d := range w.Dirs {
-			if d == dir {
-				evSeq++
-				PendingEvs = append(PendingEvs, &PendingEvent{Seq: evSeq, W: w, Name: abs, Op: op})
-				Probe("fsevent_queued")
+		for _, x := range w.Watches {
+			if x.Node == par {
+				queueEvent(w, path.Join(x.Name, name), op)
 				break
 			}
+		}
+	}
+}
+
+// detached: the node n (and everything below it) was unlinked (op EvRemove) or n was renamed (op
+// EvRename; watches below a renamed directory stay, as inotify watches do).  Watches on the affected
+// directories are dropped; each sends one event under its own name, except that a deleted directory
+// whose parent is watched too is reported by the parent only.
+func detached(n *Node, parent *Node, op int) {
+	if n == nil || n.Kind != KDir {
+		return
+	}
+	for _, w := range Watchers {
+		if w.Closed {
+			continue
+		}
+		for i := 0; i < len(w.Watches); i++ {
+			x := w.Watches[i]
+			if x.Node != n {
+				continue
+			}
+			w.Watches = append(w.Watches[:i], w.Watches[i+1:]...)
+			i--
+			Probe("watch_dropped_dir_gone")
+			parentWatched := false
+			for _, y := range w.Watches {
+				if y.Node == parent {
+					parentWatched = true
+				}
+			}
+			if !(op == EvRemove && parentWatched) {
+				queueEvent(w, x.Name, op)
+			}
+		}
+	}
+	if op == EvRemove {
+		for _, c := range n.Children {
+			detached(c, n, op)
 		}
 	}
 }
@@ -647,14 +714,13 @@ func (w *WatcherState) Add(p string) error {
 		logOp("watch.add", abs, res(e), 0, false, false)
 		return perr("watch.add", p, e)
 	}
-	_ = n
-	for _, d := range w.Dirs {
-		if d == abs {
+	for _, x := range w.Watches {
+		if x.Node == n {
 			logOp("watch.add", abs, "dup", 0, false, false)
 			return nil
 		}
 	}
-	w.Dirs = append(w.Dirs, abs)
+	w.Watches = append(w.Watches, Watch{Node: n, Name: path.Clean(p)})
 	logOp("watch.add", abs, "ok", 0, false, false)
 	return nil
 }
@@ -662,9 +728,10 @@ func (w *WatcherState) Add(p string) error {
 func (w *WatcherState) Remove(p string) error {
 	abs := TheFS.Abs(p)
 	Yield("watch.remove " + abs)
-	for i, d := range w.Dirs {
-		if d == abs {
-			w.Dirs = append(w.Dirs[:i], w.Dirs[i+1:]...)
+	name := path.Clean(p)
+	for i, x := range w.Watches {
+		if x.Name == name {
+			w.Watches = append(w.Watches[:i], w.Watches[i+1:]...)
 			logOp("watch.remove", abs, "ok", 0, false, false)
 			return nil
 		}
@@ -675,8 +742,8 @@ func (w *WatcherState) Remove(p string) error {
 
 func (w *WatcherState) List() []string {
 	Yield("watch.list")
-	logOp("watch.list", "", "ok", len(w.Dirs), false, false)
-	return append([]string(nil), w.Dirs...)
+	logOp("watch.list", "", "ok", len(w.Watches), false, false)
+	return w.Names()
 }
 
 func (w *WatcherState) Close() {
